@@ -195,7 +195,7 @@ def make_cases(ctx, fa, n, label="f"):
     shared_meta = {"shared": "metadata dict reused by several writer() calls"}
     while len(cases) < n and tries < n * 5:
         tries += 1
-        g = gen.Gen(rnd, logical=False, max_depth=rnd.choice([1, 2, 2]), big=False)
+        g = gen.Gen(rnd, logical=rnd.random() < 0.2, max_depth=rnd.choice([1, 2, 2]), big=False)
         top = rnd.choice(["record"] * 6 + ["union", "array", "map", "enum", "fixed", "prim", "prim"])
         ir = g.schema(top=top)
         raw = g.render(ir)
